@@ -53,8 +53,9 @@ PKGS = {  # key -> (path, package name, import alias in the probe)
     'yu': (BASE + '/y/util', 'util', 'yutil'),
     'ab': (BASE + '/a_b', 'a_b', 'pab'),
     'a': (BASE + '/a', 'a', 'pa2'),
+    'yv': (BASE + '/y.v2', 'v2', 'yv2'),      # a dot in the last path element: the linker escapes it (y%2ev2)
 }
-PKGDIR = {'pa': 'pa', 'xu': 'x/util', 'yu': 'y/util', 'ab': 'a_b', 'a': 'a'}
+PKGDIR = {'pa': 'pa', 'xu': 'x/util', 'yu': 'y/util', 'ab': 'a_b', 'a': 'a', 'yv': 'y.v2'}
 LAYOUTS = {
     0: ('A int64', lambda a: f'A: {a}'),
     1: ('A int64; B string', lambda a: f'A: {a}, B: "s{a}"'),
@@ -63,7 +64,8 @@ LAYOUTS = {
     4: ('', lambda a: ''),
 }
 PARAMS = {0: ('', ''), 1: ('x int64', 'w.WantX'), 2: ('x int64, s string', 'w.WantX, w.WantS'),
-          3: ('a [4]int64, b [4]int64', 'w.WantArr, w.WantArr2')}   # kind 3: stack-passed arguments
+          3: ('a [4]int64, b [4]int64', 'w.WantArr, w.WantArr2'),   # kind 3: stack-passed arguments
+          4: ('c [16]int64', 'w.WantArr16')}                        # kind 4: big enough for runtime.duffcopy in a wrapper
 NAMEPOOL = ['Get', 'GetX', 'GetXY', 'get', 'getX', 'Set', 'Se', 'set', 'G', 'g', 'Value', 'Val', 'value', 'M', 'm', 'mm', 'Getx', 'gET']
 UNEXP_TYPES = ['t', 't2', 'tt', 'conn', 'conn2', 'connX', 'c', 'impl', 'implA', 'node', 'nodeList', 'n', 'state', 'st', 'e0', 'eE']
 GEN_ARGS = [  # Go type argument, reflect spelling, shape
@@ -127,16 +129,26 @@ def gen_corpus(tier, rng):
             types.append(Ty(pk, f'T{i}', i % 4, [('Get', i % 2 == 1, 0), ('GetX', i % 2 == 1, 1), ('get', i % 2 == 1, 1), ('Set', True, 2)]))
         for i in range(3):
             types.append(Ty(pk, ['u', 'u2', 'uu'][i], i % 4, [('m', True, 1), ('mm', True, 0), ('v', False, 1), ('M', i == 1, 0)]))
+    for i in range(2):
+        types.append(Ty('yv', f'T{i}', i, [('Get', i == 1, 0), ('get', i == 1, 1), ('Set', True, 2), ('set', True, 0)]))
+    types.append(Ty('yv', 'u', 1, [('m', True, 1), ('v', False, 0)]))
     types.append(Ty('ab', 'T', 1, [('m', False, 1), ('M', False, 0), ('p', True, 1)]))
     types.append(Ty('a', 'b_T', 1, [('m', False, 1), ('M', False, 0), ('p', True, 1)]))
     gens = []
     for g in range(n_gen):
         gm = [('Get', True, 0), ('GetX', True, 1), ('Val', False, 0), ('get', True, 0), ('Value', False, 2 if g % 2 else 1),
               ('Big', True, 3), ('BigV', False, 3)]      # stack-passed arguments: the CALL sits far into the instantiation wrapper
-        gens.append((f'G{g}', gm))
+        gens.append((f'G{g}', gm, ''))
         for a in range(n_inst):
             go, refl, shape = GEN_ARGS[(a + g) % len(GEN_ARGS)] if tier != 'quick' else GEN_ARGS[a % len(GEN_ARGS)]
             types.append(Ty('pa', f'G{g}[{refl}]', 5, gm, generic=(f'G{g}', go, f'G{g}[{shape}]')))
+    # generic types whose instantiation wrappers copy a big value receiver / parameter with runtime.duffcopy BEFORE calling the shape body
+    for g in range(1 if tier == 'quick' else 2):
+        gm = [('Get', True, 0), ('Val', False, 0), ('Arr', True, 4), ('ValX', False, 1)]
+        gens.append((f'GB{g}', gm, 'Pad [16]int64'))
+        for a in range(3 if tier == 'quick' else 5):
+            go, refl, shape = GEN_ARGS[(a * 3 + g) % len(GEN_ARGS)]
+            types.append(Ty('pa', f'GB{g}[{refl}]', 5, gm, generic=(f'GB{g}', go, f'GB{g}[{shape}]')))
     # embedding: a base struct with value and pointer methods, two different outer types sharing it
     for b in range(2 if tier == 'quick' else 4):
         bm = [('Name', True, 0), ('NameX', True, 1), ('Val', False, 0), ('name', True, 1), ('Big', True, 3), ('Value', False, 2)]
@@ -151,6 +163,7 @@ def gen_corpus(tier, rng):
             entries.append({'id': eid, 'pk': t.pk, 'pkg': PKGS[t.pk][0], 'T': t.name, 'ptr': ptr, 'm': m, 'np': np_,
                             'shape': t.generic[2] if t.generic else '-', 'K': 100000 + eid * 17, 'layout': t.layout,
                             'exported_type': t.exported, 'generic': t.generic, 'promoted': None, 'outer': t.outer,
+                            'duff': bool(t.generic and t.generic[0].startswith('GB') and (not ptr or np_ == 4)),
                             'go': (f'{t.generic[0]}[{t.generic[1]}]' if t.generic else t.name)})
             byname[(t.pk, t.name, m)] = entries[-1]
         if t.embeds:
@@ -168,7 +181,14 @@ def gen_corpus(tier, rng):
     return types, gens, entries
 
 
+def sym_prefix(pkg):
+    """cmd/internal/objabi.PathToPrefix: what the linker uses as the prefix of the package's symbols"""
+    slash = pkg.rfind('/')
+    return ''.join('%%%02x' % ord(c) if (ord(c) <= 32 or (c == '.' and i > slash) or c in '%"' or ord(c) >= 127) else c for i, c in enumerate(pkg))
+
+
 def link_name(pkg, T, ptr, m):
+    pkg = sym_prefix(pkg)
     return f'{pkg}.(*{T}).{m}' if ptr else f'{pkg}.{T}.{m}'
 
 
@@ -194,8 +214,8 @@ def emit_sources(types, gens, entries, outdir):
         src = ['//go:build go1.18', '', f'package {pname}', '', 'import (', '\t"unsafe"', '', f'\t"{BASE}/w"', ')', '', 'var _ = unsafe.Pointer(nil)', '']
         if pk == 'pa':
             src += ['type MyInt int', 'type MyStr string', '']
-            for gname, gm in gens:
-                src.append(f'type {gname}[T any] struct {{\n\tA int64\n\tV T\n}}\n')
+            for gname, gm, extra in gens:
+                src.append(f'type {gname}[T any] struct {{\n\tA int64\n\tV T\n\t{extra}\n}}\n')
                 for (m, ptr, np_) in gm:
                     # K is per entry (instantiation); the body reads it from a per-instantiation table keyed by the dictionary-free
                     # receiver field KK, set by the call function
@@ -266,8 +286,8 @@ def emit_sources(types, gens, entries, outdir):
 def body_tail(np_, helper=False):
     """non-leaf variant: the multiplication goes through the (never inlined) helper w.Id, so the body contains a CALL"""
     if helper:
-        return [' + w.Id(0)', ' + w.Id(x*31)', ' + w.Id(x*31) + int64(len(s))', ' + w.Id(a[0]*31) + b[3]'][np_]
-    return ['', ' + x*31', ' + x*31 + int64(len(s))', ' + a[0]*31 + b[3]'][np_]
+        return [' + w.Id(0)', ' + w.Id(x*31)', ' + w.Id(x*31) + int64(len(s))', ' + w.Id(a[0]*31) + b[3]', ' + w.Id(c[3]*31)'][np_]
+    return ['', ' + x*31', ' + x*31 + int64(len(s))', ' + a[0]*31 + b[3]', ' + c[3]*31'][np_]
 
 
 def inst_literal(e, a):
@@ -338,7 +358,7 @@ def mock_func(e):
     cbE<id> (typed callback number k), standInE<id> (typed stand-in for As)."""
     ps = PARAMS[e['np']][0]
     pl = (', ' + ps) if ps else ''
-    argok = ['true', 'x == w.WantX', 'x == w.WantX && s == w.WantS', 'a == w.WantArr && b == w.WantArr2'][e['np']]
+    argok = ['true', 'x == w.WantX', 'x == w.WantX && s == w.WantS', 'a == w.WantArr && b == w.WantArr2', 'c == w.WantArr16'][e['np']]
     lay = e['layout']
     i = e['id']
     visible = e['pk'] == 'pa' or e['exported_type']
@@ -382,11 +402,20 @@ def mock_func(e):
     L += [f'func lookE{i}(b *mocker.Builder, via, pkg, raw, m, tmpl string) interface{{}} {{', '\tswitch via {']
     if visible:
         L += ['\tcase "SM":', f'\t\treturn b.Struct(tmplE{i}(tmpl)).Method(m)', '\tcase "SX":', f'\t\treturn b.Struct(tmplE{i}(tmpl)).ExportMethod(m)']
+        if not e['ptr'] and not e['promoted']:
+            # a VALUE method mocked through a POINTER instance (what README 1.2 shows for pointer methods)
+            L += ['\tcase "SP":', f'\t\treturn b.Struct(&{go_type(e, "pa")}{{}}).Method(m)']
     if not e['generic']:
         L += ['\tcase "EC":', '\t\treturn b.ExportStruct(raw).Method(m)', '\tcase "ES":', '\t\treturn b.Pkg(pkg).ExportStruct(raw).Method(m)']
     L += ['\t}', '\tpanic("probe: API path not generated for this entry")', '}', '']
+    sp_cb = None
+    if visible and not e['ptr'] and not e['promoted']:
+        # if this ever runs for a call of the value method, the receiver was not handed over unchanged (types differ)
+        sp_cb = f'func(r *{go_type(e, "pa")}{pl}) int64 {{ w.Hit(k, false, {argok}); return w.Sentinel }}'
     for name, real, fake in ((f'cbE{i}(via string, k int)', real_cb, fake_cb), (f'standInE{i}(via string)', real_si, fake_si)):
         L.append(f'func {name} interface{{}} {{')
+        if sp_cb and name.startswith('cbE'):
+            L += ['\tif via == "SP" {', f'\t\treturn {sp_cb}', '\t}']
         if fake:
             L += ['\tif via == "ES" || via == "EC" {', f'\t\treturn {fake}', '\t}']
         if real:
@@ -402,6 +431,8 @@ def mock_func(e):
 def step_tok(via, e, m=None, raw=None, pkg=None, tmpl=None):
     m = e['m'] if m is None else m
     pkg = e['pkg'] if pkg is None else pkg
+    if via == 'SP':
+        return f'SP~{pkg}~{e["T"]}~1~{m}~{e["id"]}'
     if via in ('SM', 'SX'):
         return f'{via}~{pkg}~{e["T"]}~{1 if e["ptr"] else 0}~{m}~{e["id"]}' + (f'~{tmpl}' if tmpl else '')
     raw = (('*' if e['ptr'] else '') + e['T']) if raw is None else raw
@@ -619,6 +650,15 @@ def gen_hists(tier, rng, entries):
                                           step_tok(rng.choice([v for v in vias_for(a) if not (a['generic'] and v == 'SX')] or ['SM']), a)
                                           if c['id'] != a['id'] and [v for v in vias_for(a) if not (a['generic'] and v == 'SX')] else 'R']))
                 H.append(('reuse:two-objects', [tokf('D', 0, a), tokf('D', 1, b2), 'A~0', 'A~1', 'C~0', tokf('RD', 0, c), 'R', 'A~0' if c['id'] != b2['id'] else 'R']))
+    # lane 11: a value method mocked through a pointer instance (known finding C06-K2: only the (*T).m wrapper is patched)
+    spe = [e for e in entries if not e['ptr'] and not e['promoted'] and e['m'][0].isupper() and (e['pk'] == 'pa' or e['exported_type'])]
+    for e in spe[::(4 if tier == 'quick' else 1)]:
+        H.append(('value-via-pointer', [step_tok('SP', e)]))
+    # lane 12: the package given with a shorter path (only the package name, a path suffix): must be an error, never a match
+    for e in [x for x in entries if x['pk'] in ('xu', 'yu', 'yv') and not x['generic']][::(3 if tier == 'quick' else 1)]:
+        parts = e['pkg'].split('/')
+        for cut in (len(parts) - 1, len(parts) - 2, 1, 3):
+            H.append(('malformed-pkg-suffix', [step_tok('ES', e, pkg='/'.join(parts[cut:]))]))
     # lane 10: the patch package used directly — guards created first, applied / unpatched later, interleaved
     gable = [e for e in entries if e['m'][0].isupper() and (e['pk'] == 'pa' or e['exported_type'])]
     gn = lambda h, e: f'GN~{h}~{e["pkg"]}~{e["T"]}~{1 if e["ptr"] else 0}~{e["m"]}~{e["id"]}'
@@ -640,10 +680,20 @@ def gen_hists(tier, rng, entries):
             steps.append(rng.choice([f'GU~{h}', f'GA~{h}', gn(h, es[h])]))
         H.append(('guards', steps))
     # lane 5: the C06-K1 follow-up, oracle only (the Lean model does not cover a patched generic wrapper)
-    gex = [e for e in entries if e['generic'] and e['m'][0].isupper()]
+    gex = [e for e in entries if e['generic'] and e['m'][0].isupper() and not e.get('duff')]
     for e in gex[:4 if tier == 'quick' else 20]:
         H.append(('k1-poison', [step_tok('SX', e), step_tok('SM', e)]))
-    return H
+    # histories on methods whose wrapper calls runtime.duffcopy crash the probe process on a tree without repair F27 (one
+    # restart each): keep a bounded number of them (spread over the lanes), all others are unaffected
+    duff_ids = {str(e['id']) for e in entries if e.get('duff')}
+    cap, kept, out = (14 if tier == 'quick' else 150), collections.Counter(), []
+    for lane, steps in H:
+        if any(tok.rsplit('~', 2)[-1] in duff_ids or tok.rsplit('~', 2)[-2] in duff_ids for tok in steps if '~' in tok and tok.split('~')[0] not in ('A', 'T', 'S', 'W', 'SW', 'C', 'GA', 'GU')):
+            if sum(kept.values()) >= cap or kept[lane] >= 3:
+                continue
+            kept[lane] += 1
+        out.append((lane, steps))
+    return out
 
 
 def parse_obs(obs):
@@ -668,6 +718,8 @@ def parse_obs(obs):
 def step_target(tok, entries, index):
     """Which entry does a lookup NAME according to the property (independent of the Lean model)?  None for malformed."""
     f = tok.split('~')
+    if f[0] == 'SP':      # Struct(&T{}).Method(m) for a VALUE method m of T: the user names T.m
+        return index.get((f[1], f[2], False, f[4])) if f[4][:1].isupper() else None
     if f[0] in ('SM', 'SX'):
         key = (f[1], f[2], f[3] == '1', f[4])
         e = index.get(key)
@@ -720,7 +772,51 @@ def guard_oracle(steps, res, hits, after, entries, index, name):
     return None
 
 
+def lookup_of(tok):
+    """the lookup text inside a step token (None for steps without one) and its API path"""
+    f = tok.split('~')
+    if f[0] in ('SM', 'SX', 'ES', 'EC', 'SP'):
+        return f
+    if f[0] == 'L':
+        return f[2:]
+    return None
+
+
 def oracle(steps, obs, entries, index):
+    """`oracle_core` plus the attribution of a failure to a RECORDED defect class: only when the failing method / step is
+    itself in that class (or the process died in a history that exercises it)."""
+    why, key, notes = oracle_core(steps, obs, entries, index)
+    if why is None or key is not None:
+        return why, key, notes
+    name = lambda e: f'{e["pkg"]}.{e["go"]}.{e["m"]}'
+    died = why.startswith('no usable observation') or 'Reset' in why
+    for tok in steps:
+        f = tok.split('~')
+        lk = lookup_of(tok)
+        e = None
+        if lk:
+            e = step_target('~'.join(lk), entries, index)
+        elif f[0] in ('D', 'RD') and f[2] == 'UM':
+            sn = f[4]
+            ptr = sn.startswith('(*')
+            e = index.get((f[3], sn[2:-1] if ptr else sn, ptr, f[5]))
+        elif f[0] in ('D', 'RD', 'GN'):
+            o = 3 if f[0] != 'GN' else 2
+            e = index.get((f[o], f[o + 1], f[o + 2] == '1', f[o + 3]))
+        if e is None:
+            continue
+        concerns = died or name(e) in why or tok in why
+        byname = (lk and lk[0] in ('SX', 'ES', 'EC')) or (f[0] in ('D', 'RD') and f[2] == 'UM')
+        if concerns and lk and lk[0] == 'SP':
+            return why, 'value-method-via-pointer', notes
+        if concerns and e.get('duff'):
+            return why, 'generic-duffcopy', notes
+        if concerns and e['pk'] == 'yv' and byname:
+            return why, 'dotted-package-byname', notes
+    return why, None, notes
+
+
+def oracle_core(steps, obs, entries, index):
     """The property on the implementation's observation, by a property-level reading of the history that does not use the
     Lean model: a method is *currently mocked* by the last arming call (Apply / Return / Returns / When..Return) on a lookup
     that names it, until its handle is cancelled or the builder reset; everything else runs its original body; after the
@@ -797,7 +893,7 @@ def oracle(steps, obs, entries, index):
         e = step_target(tok, entries, index)
         if e is None:
             continue
-        if e['generic'] and op != 'SM':
+        if e['generic'] and op not in ('SM', 'SP'):
             gaps.append((k, e))
             byname_generic.add(e['id'])
             continue
@@ -879,7 +975,7 @@ def read_syms(binary):
 
 def entry_tok(e):
     # np on the wire = ordinary parameters passed in REGISTERS (the ones a shape body's dictionary displaces); kind 3 has none
-    return (f'{e["pkg"]}~{e["T"]}~{1 if e["ptr"] else 0}~{e["m"]}~{e["shape"]}~{0 if e["np"] == 3 else e["np"]}'
+    return (f'{e["pkg"]}~{e["T"]}~{1 if e["ptr"] else 0}~{e["m"]}~{e["shape"]}~{0 if e["np"] >= 3 else e["np"]}'
             f'~{e["base_id"] if e.get("promoted") else "-"}')
 
 
@@ -917,11 +1013,12 @@ def run_impl(binary, ops_path, n, tag, ops=None):
         if rc == 0:
             break
         crashes += 1
+        C.log(f'C06: probe died at op {last + 1} ({crashes} so far)')
         sig = re.search(r'(SIGSEGV|SIGBUS|SIGILL|SIGTRAP|fatal error: [^\n]*|panic: [^\n]*)', log)
         if last + 1 < n:
             impl[last + 1] = 'crash:' + (sig.group(1)[:60].replace(' ', '-') if sig else f'rc{rc}')
         start = last + 2
-        if crashes > 50:
+        if crashes > max(400, n // 4):
             raise C.Infra('C06 probe keeps crashing:\n' + log[-2000:])
     if ops is not None:
         suspects = [i for i in range(n) if impl[i] is not None and (impl[i].startswith('crash:') or impl[i].startswith('before=dirty'))]
@@ -969,7 +1066,7 @@ def run(tier):
     lanes = gen_hists(tier, rng.fork('hist'), entries)
     hists = [s for _, s in lanes]
     lane_floor = collections.Counter(l.split(':')[0] for l, _ in lanes)
-    for need in ('single', 'malformed-method', 'malformed-type', 'malformed-pkg', 'collide-pkgname', 'siblings', 'random', 'template', 'handle',
+    for need in ('value-via-pointer', 'malformed-pkg-suffix', 'single', 'malformed-method', 'malformed-type', 'malformed-pkg', 'collide-pkgname', 'siblings', 'random', 'template', 'handle',
                  'reuse', 'guards', 'k1-poison'):
         if lane_floor[need] < 3:
             raise C.Infra(f'C06 generator produced no `{need}` histories: the corpus/generator is broken, nothing was checked')
@@ -996,8 +1093,14 @@ def run(tier):
     hard = [b for b in bad if b[2] is None]
     if model is None:
         proof['failed'].append(('goomdrv', 'driver does not build: ' + derr[-500:]))
+    known_keys = {kf.get('match', {}).get('key') for kf in C.known_findings('C06') if kf.get('status') == 'known'}
+    known_idx = {i for i, why, key in bad if key in known_keys}      # the model describes the repaired code there
+    def same_modulo_known(i):
+        # while C06-K4 is an unrepaired known finding the code spells names in the dotted package unescaped
+        return ('dotted-package-byname' in known_keys and any('y.v2' in t for t in hists[i])
+                and impl[i] is not None and impl[i] == model[i].replace('%2e', '.'))
     diffs = [(i, hists[i], impl[i], model[i]) for i in range(len(hists))
-             if model is not None and impl[i] != model[i] and lanes[i][0] != 'k1-poison']
+             if model is not None and impl[i] != model[i] and lanes[i][0] != 'k1-poison' and i not in known_idx and not same_modulo_known(i)]
     if missing and not hard:
         out.violation(f'linker-name SPEC of the model is wrong for this toolchain: {missing[0]} is not a symbol of the probe binary',
                       {'kind': 'model-validation', 'missing': missing[:10]}, no_failing_input=True)
